@@ -79,7 +79,10 @@ fn check_dense<F: Field>(rep: &mut Report, op: &str, got: &DenseMle<F>, nv: usiz
         rep.violation(format!("mle/dense/{op}/table-length"), det());
         return false;
     }
-    if nv != 0 && got.num_vars == 0 && got.evaluations[0].is_zero() && all_zero(want) {
+    // the library's documented convention: scaling by the zero scalar yields the 0-variable `zero()` (its own
+    // tests assert `p * 0 == zero()`); every other operation keeps the operands' number of variables, and a result
+    // that silently drops to 0 variables makes a later `evaluate` at an n-dimensional point panic
+    if op == "mul-scalar" && nv != 0 && got.num_vars == 0 && got.evaluations[0].is_zero() && all_zero(want) {
         rep.class(C_ZERO_REPR_OUT);
         return true;
     }
@@ -119,10 +122,7 @@ fn check_sparse<F: Field>(rep: &mut Report, op: &str, got: &SparseMle<F>, nv: us
         rep.violation(format!("mle/sparse/{op}/index-out-of-range"), det());
         return false;
     };
-    if nv != 0 && got.num_vars == 0 && all_zero(&t) && all_zero(want) {
-        rep.class(C_ZERO_REPR_OUT);
-        return true;
-    }
+    let _ = op;
     let with = |d: &dyn Fn() -> Value| {
         let mut v = d();
         v["expected_num_vars"] = json!(nv);
@@ -646,7 +646,7 @@ fn sparse_relabel<F: PrimeField>(rep: &mut Report, rng: &mut Rng, args: &Args, f
 
 fn sparse_ops<F: PrimeField>(rep: &mut Report, rng: &mut Rng, args: &Args, fname: &'static str, shards: usize) {
     rep.config(&format!("{fname}/sparse"));
-    for c in [C_ZERO_REPR_IN, C_ZERO_REPR_OUT, "scalar = 0", "scalar = 1", "b = -a (sum identically zero)"] {
+    for c in [C_ZERO_REPR_IN, "scalar = 0", "scalar = 1", "b = -a (sum identically zero)"] {
         rep.require(c);
     }
     let max_nv = args.pick(7, 10);
